@@ -56,6 +56,8 @@ func init() {
 	families["lruconc"] = &family{record: lruConcRecord}
 }
 
+var lruCaseNo int
+
 func lruReplay(s *Summary, raw json.RawMessage) {
 	var c lruCase
 	if err := json.Unmarshal(raw, &c); err != nil {
@@ -63,11 +65,23 @@ func lruReplay(s *Summary, raw json.RawMessage) {
 	}
 	s.sample(c)
 	cache := rux.NewCachedRoutes(c.Cap)
+	// in every other case a value is ONE route object: storing the value again stores the identical pointer
+	lruCaseNo++
+	interned := map[int]*rux.Route{}
+	mkVal := func(v int) *rux.Route {
+		if lruCaseNo%2 == 1 {
+			return valRoute(v)
+		}
+		if interned[v] == nil {
+			interned[v] = valRoute(v)
+		}
+		return interned[v]
+	}
 	for i, st := range c.H {
 		bad := ""
 		switch st.Last.Op {
 		case "set":
-			if got := cache.Set(st.Last.K, valRoute(st.Last.V)); got != st.Last.Res {
+			if got := cache.Set(st.Last.K, mkVal(st.Last.V)); got != st.Last.Res {
 				bad = fmt.Sprintf("Set returned %v, spec %v", got, st.Last.Res)
 			}
 		case "get":
